@@ -154,6 +154,26 @@ def run(ctx):
     c18.incomplete_flag_clause(ctx, res, cfl, 'C05', 'C05.f')
 
     rm.interception_flag_clause(ctx, res, 'C05', 'C05.g')
+    # ---- C05.j a recording that is running when another operation of the same recorder starts (nested / overlapping call) is not dropped
+    cj = res.clause('C05.j', 'R-TYPESTATE', 'an operation entered while a recording is active leaves that recording active or finalises it', floor=1)
+    dn = rm.run_closure(ctx, 'operation', 'recording')
+    cj.evaluations += dn.visited_pairs
+    init_active = dn.initial_states()[0].env.get(('F', 'self', roles.active))
+    badn = None
+    for n, s in dn.exits:
+        a = dn.field(s, roles.active)
+        if a is not None and a == init_active:
+            continue
+        if dn.n(s, SAVE) + dn.n(s, ABORT) >= dn.n(s, CREATE) + 1:
+            continue            # one finalisation more than the recordings this scope created itself: the running one was finalised too
+        badn = badn or (n, s)
+    cj.instance('nested entry: %d exits keep or finalise the running recording' % len(dn.exits), cl.qualname, badn is None and bool(dn.exits))
+    if badn:
+        n, s = badn
+        res.add(Finding('C05', 'C05.j', 'R-TYPESTATE', roles.start.file, roles.start.qualname, roles.start.node.lineno,
+                        'running recording dropped by a nested entry (exit %s)' % rm.exit_kind(n),
+                        'when an operation starts while another recording of the same recorder is active, that recording is detached from the recorder '
+                        'without being saved or aborted: it was created but is never finalised', witness=dn.path_to(n, s), exit=rm.exit_kind(n)))
     from . import common as _ci
     _ci.import_clauses(ctx, res, 'C10', ['C10.d'], 'C05', 'C05.i', 'R-AGREE', 'a save that fails leaves nothing behind that lookups can find', floor=1)
     # ---- C05.h the ordinal counter is fresh whenever the scope is left (also after a discard): otherwise the next recording's
